@@ -59,7 +59,7 @@ _ANONYMOUS_BITS_ALIAS_EXISTENCE_SKELETON = expression_parser.parse(
 )
 
 
-def _add_anonymous_aliases(structure, type_definition):
+def _add_anonymous_aliases(structure, type_definition, source_file_name, errors):
     """Adds synthetic alias fields for all fields in anonymous fields.
 
     This essentially completes the rewrite of this:
@@ -86,6 +86,8 @@ def _add_anonymous_aliases(structure, type_definition):
     Arguments:
         structure: The ir_data.Structure on which to synthesize fields.
         type_definition: The ir_data.TypeDefinition containing structure.
+        source_file_name: The name of the file being desugared, for errors.
+        errors: A list to which errors are appended.
 
     Returns:
         None
@@ -95,6 +97,25 @@ def _add_anonymous_aliases(structure, type_definition):
         new_fields.append(field)
         if not field.name.is_anonymous:
             continue
+        # The anonymous field is never printed; its members are, through their
+        # aliases.  A `text_output` the user wrote on the anonymous field itself
+        # (at the top of the `bits:` body) can neither hide the members nor
+        # show the field, whose name is reserved.
+        for attribute in field.attribute:
+            if (
+                attribute.name.text == attributes.TEXT_OUTPUT
+                and not ir_data_utils.reader(attribute).back_end.text
+            ):
+                errors.append(
+                    [
+                        error.error(
+                            source_file_name,
+                            attribute.name.source_location,
+                            "Attribute 'text_output' may not be used on an "
+                            "anonymous 'bits'; use it on the fields inside.",
+                        )
+                    ]
+                )
         field.attribute.extend([_skip_text_output_attribute()])
         for subtype in type_definition.subtype:
             if (
@@ -150,7 +171,16 @@ def _add_anonymous_aliases(structure, type_definition):
             # alias is what gets printed: a [text_output] attribute on the
             # original field has to act on the alias.
             for attribute in subfield.attribute:
-                if attribute.name.text == attributes.TEXT_OUTPUT:
+                # Only the core attribute with a literal value means anything to
+                # the alias: a back-end-qualified `(cpp) text_output` or a
+                # reference (`[text_output: Foo.skipp]`) is diagnosed on the
+                # original, and a copy would be diagnosed a second time at a
+                # synthetic location.
+                if (
+                    attribute.name.text == attributes.TEXT_OUTPUT
+                    and not ir_data_utils.reader(attribute).back_end.text
+                    and attribute.value.has_field("string_constant")
+                ):
                     # The copy is synthetic, so that a bad value is reported once,
                     # on the original.
                     alias_attribute = ir_data_utils.copy(attribute)
@@ -347,8 +377,8 @@ def _replace_next_keyword(structure, source_file_name, errors):
         last_physical_field_location = field.location
 
 
-def _add_virtuals_to_structure(structure, type_definition):
-    _add_anonymous_aliases(structure, type_definition)
+def _add_virtuals_to_structure(structure, type_definition, source_file_name, errors):
+    _add_anonymous_aliases(structure, type_definition, source_file_name, errors)
     _add_size_virtuals(structure, type_definition)
     _add_size_bound_virtuals(structure, type_definition)
 
@@ -374,6 +404,9 @@ def desugar(ir):
     if errors:
         return errors
     traverse_ir.fast_traverse_ir_top_down(
-        ir, [ir_data.Structure], _add_virtuals_to_structure
+        ir,
+        [ir_data.Structure],
+        _add_virtuals_to_structure,
+        parameters={"errors": errors},
     )
-    return []
+    return errors
